@@ -356,6 +356,74 @@ class Reversal:
         return V
 
 
+class Recalc:
+    """WHFast / MERCURIUS in deferred mode with the 'recalculate coordinates' request raised repeatedly between blocks of steps
+    (no particle touched): the library has to synchronise before it re-reads the particles, every time"""
+    def __init__(self, rebound):
+        self.rebound = rebound
+
+    def run1(self, integ, o, nreq):
+        sim, P = lattice.make_sim(self.rebound, {"integ": integ, "o": o, "sys": "S3", "tp": 0, "dtsign": 1})
+        ri = sim.ri_whfast if integ == "whfast" else sim.ri_mercurius
+        sim.steps(3)
+        for k in range(nreq):
+            ri.recalculate_coordinates_this_timestep = 1
+            sim.steps(2 + k)
+        sim.synchronize()
+        return pvec(sim)
+
+    def __call__(self, task):
+        integ, o, nreq = task
+        rb.quiet()
+        a = self.run1(integ, dict(o, safe_mode=1), nreq)
+        b = self.run1(integ, dict(o, safe_mode=0), nreq)
+        sc = max(abs(x) for p in a for x in p)
+        d = maxdiff(a, b)
+        if not d <= 1e-11 * sc * (4 + 3 * nreq):
+            return [("recalculate:unsafe-vs-safe:%s" % integ, "%s%s with recalculate_coordinates_this_timestep raised %d time(s) between blocks of steps: safe_mode=0 differs from safe mode by %.3g (relative %.3g)" % (integ, o, nreq, d, d / sc))]
+        return []
+
+
+class GetExact:
+    """Simulationarchive.getSimulation(t, mode='exact') on an archive written in deferred mode: the returned simulation, synchronised,
+    is the safe-mode run integrated to t"""
+    def __init__(self, rebound):
+        self.rebound = rebound
+
+    def __call__(self, task):
+        import tempfile
+        integ, o, tfrac = task
+        rb.quiet()
+        rebound = self.rebound
+        sim, P = lattice.make_sim(rebound, {"integ": integ, "o": dict(o, safe_mode=0), "sys": "S3", "tp": 0, "dtsign": 1})
+        dt = sim.dt
+        fd, fn = tempfile.mkstemp(prefix="c09-", suffix=".bin", dir=os.environ.get("VERIF_TMP", "/var/tmp"))
+        os.close(fd)
+        os.unlink(fn)
+        try:
+            sim.save_to_file(fn, step=5, delete_file=True)
+            sim.integrate(16.5 * dt, exact_finish_time=0)        # (the automatic snapshots are taken by integrate(), not by steps())
+            sa = rebound.Simulationarchive(fn)
+            t = tfrac * dt
+            got = sa.getSimulation(t, mode="exact")
+            got.synchronize()
+            gv, gt = pvec(got), got.t
+        finally:
+            if os.path.exists(fn):
+                os.unlink(fn)
+        ref, _ = lattice.make_sim(rebound, {"integ": integ, "o": dict(o, safe_mode=1), "sys": "S3", "tp": 0, "dtsign": 1})
+        ref.integrate(t, exact_finish_time=1)
+        rv = pvec(ref)
+        V = []
+        if not abs(gt - t) <= 1e-12 * abs(t):
+            V.append(("getsimulation-exact:time:%s" % integ, "getSimulation(%r, mode='exact') returns t=%r [%s%s, archive written with safe_mode=0]" % (t, gt, integ, o)))
+        sc = max(abs(x) for p in rv for x in p)
+        d = maxdiff(gv, rv)
+        if not d <= 1e-11 * sc * 20:
+            V.append(("getsimulation-exact:unsafe-vs-safe:%s" % integ, "getSimulation(t=%.4g dt, mode='exact') on an archive written with safe_mode=0 differs from the safe-mode run to that time by %.3g (relative %.3g) [%s%s]" % (tfrac, d, d / sc, integ, o)))
+        return V
+
+
 def run(ctx):
     rebound = ctx.use("rel")
     cfgs = configs(ctx.tier, False)
@@ -410,6 +478,18 @@ def run(ctx):
             continue
         for sig, what in r[1]:
             ctx.violation(sig, what, {"reversal": list(t)})
+    # repeated recalculation requests; getSimulation(mode='exact')
+    rct = [(integ, o, n) for integ, o in CB_INTEGS if integ in ("whfast", "mercurius") for n in (1, 2, 4)]
+    rcres = pool.run_tasks(Recalc(rebound), rct, timeout=300, chunk=2)
+    get = [(integ, o, tf) for integ, o in CB_INTEGS if integ in ("whfast", "saba") for tf in (7.3123, 10.0, 12.5, 3.999)]
+    gres = pool.run_tasks(GetExact(rebound), get, timeout=300, chunk=2)
+    for fam, ts, rs in (("recalc", rct, rcres), ("getexact", get, gres)):
+        for t, r in zip(ts, rs):
+            if r[0] != "ok":
+                ctx.violation("%s-%s:%s" % (fam, r[0], t[0]), "%s in %s case %s: %s" % (r[0], fam, t, str(r[1])[-400:]), {fam: list(t)})
+                continue
+            for sig, what in r[1]:
+                ctx.violation(sig, what, {fam: list(t)})
     # WHFast512 exists only in the AVX512 build: its part runs in a process of its own (mc/w512.py)
     from .. import w512
     n_w512 = w512.run(ctx, "C09")
@@ -417,7 +497,7 @@ def run(ctx):
         "whfast512_cases": n_w512,
         "states": runs, "transitions": runs * 3, "traces_validated_against_impl": runs,
         "samples": [{"cfg": cfgs[0], "sequences": seqs[:12]}, {"cfg": cfgs[-1], "sequences": seqs[-5:]}],
-        "callback_cases": len(cbt), "reversal_cases": len(rvt), "configs": len(cfgs), "sequences_per_config_and_mode": len(seqs), "max_steps": 4, "max_interposed": 2 if ctx.tier == "quick" else 3,
+        "callback_cases": len(cbt), "reversal_cases": len(rvt), "recalculation_cases": len(rct), "getsimulation_exact_cases": len(get), "configs": len(cfgs), "sequences_per_config_and_mode": len(seqs), "max_steps": 4, "max_interposed": 2 if ctx.tier == "quick" else 3,
         "observed_max_relative_rounding_difference": maxr, "rounding_tolerance": ROUND_TOL,
         "observed_max_relative_difference_with_corrector2": maxr2, "corrector2_tolerance": CORR2_TOL,
         "exhaustive": True,
@@ -437,6 +517,10 @@ def replay(ctx, case):
         V = Callbacks(rebound)(tuple(case["callback"]))
     elif "reversal" in case:
         V = Reversal(rebound)(tuple(case["reversal"]))
+    elif "recalc" in case:
+        V = Recalc(rebound)(tuple(case["recalc"]))
+    elif "getexact" in case:
+        V = GetExact(rebound)(tuple(case["getexact"]))
     else:
         V, obs = Runner(rebound)((case["cfg"], case["seqs"]))
     for v in V[:20]:
